@@ -388,6 +388,10 @@ class CtlWriter:
         first_instruction = entry.instructions[0]
         if entry_ctl == 'i' and not first_instruction.operation:
             # Don't write any sub-blocks for an empty 'i' entry
+            mbc = first_instruction.mid_block_comment
+            if BLOCK_COMMENTS in self.elements and mbc:
+                self._write_ignoreua_directive(first_instruction.address, MID_BLOCK, first_instruction.ignoreua['m'])
+                self._write_block_comments(mbc, 'N', self.addr_str(first_instruction.address))
             return
 
         # Split the entry into sections separated by mid-block comments
